@@ -257,3 +257,8 @@ func (r *RawCli) readLogOnce(topic string, partition int32) (*RefLog, error) {
 	l.Resolve()
 	return l, nil
 }
+
+// roundTripV issues req at the version already set on it (no negotiation).
+func (r *RawCli) roundTripV(b int32, req kmsg.Request) (kmsg.Response, error) {
+	return r.roundTrip(b, req)
+}
